@@ -307,6 +307,25 @@ class Repo:
             m.functions.clear()
             m.imports.clear()
             self._index(m)
+        # helpers that were inlined at every call site are dead: drop their definitions (rules then see only the code
+        # that is executed, in the functions that execute it)
+        refs: Dict[str, int] = {}
+        for m in mods:
+            for n in ast.walk(m.tree):
+                if isinstance(n, ast.Name):
+                    refs[n.id] = refs.get(n.id, 0) + 1
+                elif isinstance(n, ast.Attribute):
+                    refs[n.attr] = refs.get(n.attr, 0) + 1
+                elif isinstance(n, ast.alias):
+                    refs[n.name.split('.')[-1]] = refs.get(n.name.split('.')[-1], 0) + 1
+        for m in mods:
+            dead = [st for st in m.tree.body if isinstance(st, ast.FunctionDef) and st.name in helpers.get(m.name, {})
+                    and refs.get(st.name, 0) == 0]
+            if dead:
+                m.tree.body[:] = [st for st in m.tree.body if st not in dead]
+                m.functions.clear()
+                m.imports.clear()
+                self._index(m)
 
     # ------------------------------------------------------------------
     def _load(self):
